@@ -723,7 +723,7 @@ class EvalError(Exception):
     pass
 
 
-def evaluate(t, env, ufs=None, ctx=None, cache=None):
+def evaluate(t, env, ufs=None, ctx=None, cache=None, extended=False):
     """Numeric evaluation with mpmath. env: var-name -> number/bool. ufs: name -> python callable.
     ctx is mpmath.mp (numbers) or mpmath.iv (intervals). Booleans over intervals are three-valued:
     True / False / None (undetermined)."""
@@ -825,6 +825,16 @@ def evaluate(t, env, ufs=None, ctx=None, cache=None):
                         return 1 / (a[0] ** int(-n))
                     return a[0] ** int(n)
                 if iv:
+                    if extended and a[0].a == 0 and a[0].b == 0 and a[1].a > 0:
+                        return ctx.mpf(0)                      # 0 ** y, y > 0
+                    if extended and a[0].a == ctx.inf and a[1].a > 0:
+                        return ctx.mpf([ctx.inf, ctx.inf])     # (+inf) ** y, y > 0
+                    if extended and a[0].a == 0 and a[0].b > 0 and a[1].a > 0 and a[0].b != ctx.inf:
+                        top = ctx.exp(a[1] * ctx.log(ctx.mpf(a[0].b)))        # monotone in the base for y > 0
+                        return ctx.mpf([0, top.b])
+                    if extended and a[0].a > 0 and a[0].b == ctx.inf and a[1].a > 0:
+                        bot = ctx.exp(a[1] * ctx.log(ctx.mpf(a[0].a)))
+                        return ctx.mpf([bot.a, ctx.inf])
                     if a[0].a <= 0:
                         raise EvalError('pow base not positive')
                     return ctx.exp(a[1] * ctx.log(a[0]))
@@ -836,6 +846,8 @@ def evaluate(t, env, ufs=None, ctx=None, cache=None):
             if op == 'exp':
                 return ctx.exp(a[0])
             if op == 'log':
+                if extended and iv and a[0].a == 0 and a[0].b >= 0:
+                    return ctx.mpf([-ctx.inf, ctx.log(ctx.mpf(a[0].b)).b if a[0].b > 0 else -ctx.inf])
                 if (iv and a[0].a <= 0) or (not iv and a[0] <= 0):
                     raise EvalError('log of non-positive')
                 return ctx.log(a[0])
